@@ -52,7 +52,7 @@ CONF = {
                 big=[("overridesync", 300, 3000), ("overridefaults", 300, 3000)]),
     "C08": dict(prefixes=("C08.",), builds=("pure",),
                 model=[("session", 400, 4000), ("syncfaults", 200, 2500), ("overflow", 300, 3000), ("overflowbatch", 400, 4000), ("sync", 150, 1500), ("throw", 250, 2500)],
-                monitor_only=[("sessionfaulty", 400, 4000), ("faultyctx", 250, 2500), ("faultysync", 250, 2500)],
+                monitor_only=[("sessionfaulty", 400, 4000), ("faultyctx", 250, 2500), ("faultysync", 250, 2500), ("faultyalways", 400, 4000)],
                 big=[("session", 300, 3000)], fresh=True),
     "C12": dict(prefixes=("C12.",), builds=("pure",),
                 model=[("dedup", 500, 5000), ("dedupdirty", 700, 7000), ("dedupsync", 300, 3000)],
@@ -216,7 +216,11 @@ def main():
             fam += [("enum_overflow", p) for p in en]
             cov["enumerated_family"] = "runaway recursion with 1-3 readers blocked on a pending batch, then a second computation: %d programs, all schedules" % len(en)
         if pid == "C12":
-            en = plang.enum_dedup(3, (1, 2), 2) if tier == "quick" else plang.enum_dedup(3, (1, 2, 3), 2) + plang.enum_dedup(2, (1, 2), 3)
+            if tier == "quick":
+                en = plang.enum_dedup(3, (1,), 2) + plang.enum_dedup(3, (2,), 2, bind="inst1")
+            else:
+                en = plang.enum_dedup(3, (1, 2, 3), 2) + plang.enum_dedup(2, (1, 2), 3) + plang.enum_dedup(3, (1, 2), 2, bind="inst1") + \
+                    plang.enum_dedup(3, (1, 2), 2, bind="static")
             fam += [("enum_dedup", p) for p in en]
             cov["enumerated_family"] = "root yields [D, actor..]; every actor sequence over {wait, call, dirty+call}: %d programs, all schedules" % len(en)
         progs = [p for _, p in fam]
